@@ -6,7 +6,7 @@ from . import cmpmodel as M
 from . import p_c05
 
 FLOOR = {"quick": 60000, "thorough": 60000}
-NSAMPLE = {"quick": 1500, "thorough": None}
+NSAMPLE = {"quick": 6000, "thorough": None}
 HEADER = "#![allow(warnings)]"
 V = "::dxrt::V"
 F0 = [f"{V}({i})" for i in range(6)]
